@@ -40,8 +40,8 @@ def main():
         c = claimed[pid]
         checks.append({
             "property_id": pid,
-            "quick_cmd": "./run_check.py %s --tier quick" % pid,
-            "thorough_cmd": "./run_check.py %s --tier thorough" % pid,
+            "quick_cmd": "python3 run_check.py %s --tier quick" % pid,
+            "thorough_cmd": "python3 run_check.py %s --tier thorough" % pid,
             "evidence_file": "/verif/evidence/%s.json" % pid,
             "replay_cmd_template": "/venv/bin/python /verif/replay.py {path}",
             "engine": c.get("engine", "bvsym"),
@@ -52,7 +52,7 @@ def main():
         })
     manifest = {
         "version": 1,
-        "setup_cmd": "./setup.sh",
+        "setup_cmd": "sh ./setup.sh",
         "hooks": {
             "guard": "WEBSOCKET_CLIENT_VERIF",
             "enable": "none needed: all instrumentation is injected from outside (import hook + module-namespace "
